@@ -87,8 +87,9 @@ def run(ctx: Ctx):
     for c in own_calls(f.node):
         if not (isinstance(c.func, ast.Attribute) and c.func.attr in ("sum", "mean") and c.args):
             continue
-        if not any(isinstance(t, ast.Compare) and pol and "'mean'" in u(t) for t, pol in guards_of(pmf, c)):
-            continue
+        from sa.astutil import reached_for
+        if not reached_for(guards_of(pmf, c), "reduction", "mean", others=("sum", "none")):
+            continue  # (the mean branch: `if reduction == 'mean':`, or the fall-through after the other reductions returned)
         a = c.args[0]
         axes.append((c, eval_under_flag(a, "batch_first", True, rdf), eval_under_flag(a, "batch_first", False, rdf)))
     if len(axes) < 2:
